@@ -581,6 +581,35 @@ struct Mon {
     int gy = cctz::get_yearday(cd);
     ctx.stat("C17.evaluations");
     if (gy != ey) ctx.viol("C17", std::string("yearday:") + src, S(y) + "-" + std::to_string(m) + "-" + std::to_string(d) + " expected " + std::to_string(ey) + " got " + std::to_string(gy));
+    // the same questions asked with an argument of every other alignment: a finer one denotes the same day, a coarser
+    // one (month, year) the first day of its period
+    {
+      cctz::civil_second c_s(static_cast<int64_t>(y), m, d, 23, 59, 59);
+      cctz::civil_minute c_m(static_cast<int64_t>(y), m, d, 12, 30);
+      cctz::civil_hour c_h(static_cast<int64_t>(y), m, d, 1);
+      ctx.stat("C17.evaluations", 6);
+      ctx.stat("C17.other_alignment_arguments", 6);
+      if (wd_index(cctz::get_weekday(c_s)) != ew || wd_index(cctz::get_weekday(c_m)) != ew || wd_index(cctz::get_weekday(c_h)) != ew)
+        ctx.viol("C17", std::string("weekday:finer-alignment-argument:") + src, S(y) + "-" + std::to_string(m) + "-" + std::to_string(d));
+      if (cctz::get_yearday(c_s) != ey || cctz::get_yearday(c_m) != ey || cctz::get_yearday(c_h) != ey)
+        ctx.viol("C17", std::string("yearday:finer-alignment-argument:") + src, S(y) + "-" + std::to_string(m) + "-" + std::to_string(d));
+      if (d == 1) {
+        cctz::civil_month c_mo(static_cast<int64_t>(y), m);
+        ctx.stat("C17.evaluations", 2);
+        ctx.stat("C17.other_alignment_arguments", 2);
+        int gwm = wd_index(cctz::get_weekday(c_mo)), gym = cctz::get_yearday(c_mo);
+        if (gwm != ew) ctx.viol("C17", std::string("weekday:civil_month-argument:") + src, S(y) + "-" + std::to_string(m) + " expected " + std::to_string(ew) + " got " + std::to_string(gwm));
+        if (gym != ey) ctx.viol("C17", std::string("yearday:civil_month-argument:") + src, S(y) + "-" + std::to_string(m) + " expected " + std::to_string(ey) + " got " + std::to_string(gym));
+        if (m == 1) {
+          cctz::civil_year c_y(static_cast<int64_t>(y));
+          ctx.stat("C17.evaluations", 2);
+          ctx.stat("C17.other_alignment_arguments", 2);
+          int gwy = wd_index(cctz::get_weekday(c_y)), gyy = cctz::get_yearday(c_y);
+          if (gwy != ew) ctx.viol("C17", std::string("weekday:civil_year-argument:") + src, S(y) + " expected " + std::to_string(ew) + " got " + std::to_string(gwy));
+          if (gyy != 1) ctx.viol("C17", std::string("yearday:civil_year-argument:") + src, S(y) + " got " + std::to_string(gyy));
+        }
+      }
+    }
     for (int w = 0; w < 7; ++w) {
       int fwd = ((w - ew) % 7 + 7) % 7;
       if (fwd == 0) fwd = 7;
